@@ -82,7 +82,11 @@ func poisonSession(r *ev.Run, rng *gen.Rand, sidx int) {
 		}
 	}
 	ks.Reset()
-	tables := proxyrig.GenTables(rng, 1, c04.Other, func(c proxyrig.ColSpec) bool { return c.Kind == "enc" && c.ClientID == "" && c.AppType == fakepg.Bytea })
+	tables := proxyrig.GenTables(rng, 1, c04.Other, func(c proxyrig.ColSpec) bool {
+		// every kind of configured column whose stored form is a byte string: the pipeline of a masked or searchable column differs from
+		// that of a plainly encrypted one (another processor stands behind the envelope detector), the alarm must not depend on it
+		return c.StoreType == fakepg.Bytea
+	})
 	t := tables[0]
 	cb := &recCallback{}
 	callbacks := poison.NewCallbackStorage()
